@@ -327,6 +327,33 @@ def bounded_small_alphabet(reg, tier, seed):
         for i in range(0, ln, rng.choice((2, 2, 3, 5))):
             x[i] = 0
         check(bytes(x))
+    # where the encoder is used: a message flagged ZEROCODED goes out with a zero-coded body - canonical, whether or not the coding
+    # makes it any shorter (isolated zeros cost a byte each) - and comes back as the same body
+    from hippolyzer.lib.base.message.message import Message as _M, Block as _B
+    from hippolyzer.lib.base.message.udpserializer import UDPMessageSerializer as _Ser
+    from hippolyzer.lib.base.message.udpdeserializer import UDPMessageDeserializer as _Des
+    from contracts.c01_native import _ref_zero_code
+    import uuid as _uuid
+    _ser, _des = _Ser(), _Des()
+    for text, chan in (("x", 0x01010101), ("", 0), ("a\x00b", 0x00010001), ("x" * 40, 5), ("\x00" * 30, 0)):
+        for flags in (0x80, 0xC0):
+            evals += 1
+            m = _M("ChatFromViewer", _B("AgentData", AgentID=_uuid.UUID(bytes=bytes(range(1, 17))), SessionID=_uuid.UUID(bytes=bytes(range(33, 49)))),
+                   _B("ChatData", Message=text, Type=1, Channel=chan), packet_id=9, flags=flags)
+            m0 = _M("ChatFromViewer", _B("AgentData", AgentID=_uuid.UUID(bytes=bytes(range(1, 17))), SessionID=_uuid.UUID(bytes=bytes(range(33, 49)))),
+                    _B("ChatData", Message=text, Type=1, Channel=chan), packet_id=9, flags=flags & ~0x80)
+            try:
+                data, plain = bytes(_ser.serialize(m)), bytes(_ser.serialize(m0))
+                seen.add(data)
+                if data[0] & 0x80 and data[6:] != _ref_zero_code(plain[6:]):
+                    failures.append({"key": "zero-coding/bounded", "clause": "a datagram flagged ZEROCODED does not carry the canonical zero-coding of its body",
+                                     "input": plain.hex()[:160], "observed": data.hex()[:160]})
+                back = _des.deserialize(data)
+                if bytes(_ser.serialize(back)) != data:
+                    failures.append({"key": "zero-coding/bounded", "clause": "a ZEROCODED datagram the serializer produced does not decode back to itself",
+                                     "input": data.hex()[:160], "observed": ""})
+            except Exception as ex:  # noqa
+                failures.append({"key": "zero-coding/bounded", "clause": f"ZEROCODED message: {type(ex).__name__}: {ex}", "input": repr(text), "observed": repr(ex)})
     # the cap: adversarial continuation runs
     for k in (47, 48, 49, 97):
         for tail in (b"", b"\x05", b"\x00"):
